@@ -747,4 +747,26 @@ theorem replaceKids_rrel (S : Schema) (ty : TypeId) (K K' : List Node) (f t : Na
   obtain ⟨hft, ht, hwf, ho⟩ := replaceKids_ok h
   exact outer_rrel S sl hsn hwf K ty K f t 0 f t _ [] K' rfl rfl (by simp) (by simp) hft ht ho hn hbr ha
 
+/-- **the guard of `replace_undo`**: in `doc`, the ancestor of `f` and the ancestor of `t` have
+    join-compatible types at every depth `d` with `e < d ≤ e + n`, where `e = depth(f) − openStart`
+    (the levels above the slice) and `n = singleDepth` (the levels at which the slice is a single
+    node open on both sides — the levels the step merges *through* a slice node). -/
+def sidesCompatible (S : Schema) (doc : Node) (f t : Nat) (sl : Slice) : Bool :=
+  bridgeCompat S (depthAt doc.kids f - sl.openStart)
+    (singleDepth sl.content sl.openStart sl.openEnd) doc.kids f doc.kids t
+
+theorem singleDepth_closed_left (M : List Node) (b : Nat) : singleDepth M 0 b = 0 := by
+  unfold singleDepth; split <;> simp_all
+
+theorem singleDepth_closed_right (M : List Node) (a : Nat) : singleDepth M a 0 = 0 := by
+  unfold singleDepth; split <;> simp_all
+
+/-- a slice closed on one side never bridges -/
+theorem sidesCompatible_of_closed (S : Schema) (doc : Node) (f t : Nat) (sl : Slice)
+    (h : sl.openStart = 0 ∨ sl.openEnd = 0) : sidesCompatible S doc f t sl = true := by
+  unfold sidesCompatible
+  rcases h with h | h
+  · rw [h, singleDepth_closed_left]; exact bridgeCompat_nil S _ _ _ _ _
+  · rw [h, singleDepth_closed_right]; exact bridgeCompat_nil S _ _ _ _ _
+
 end PM
